@@ -106,6 +106,29 @@ def py_decision(ctx, sc):
     return nis, thr, op
 
 
+def py_gate_forms(ctx: core.Ctx):
+    """the Python filter's gate alone (shared with C05): NIS-FORM / THRESH-FORM / CMP of ExtendedKalmanFilter.remove_innovation"""
+    for rid, text in (("NIS-FORM", "compared quantity == y^T.Inv(S).y (matrix products)"), ("THRESH-FORM", "bound == k*sqrt(2*m) + m"), ("CMP", "strict >")):
+        ctx.rule(rid, text)
+    sc = scenarios.PyEKF(ctx, run=("sensor_model",))
+    qual = "ExtendedKalmanFilter.remove_innovation"
+    d = py_decision(ctx, sc)
+    y, Sinv = MatForm.atom("y"), MatForm.atom("Sinv", True)
+    want_nis = y.T() * Sinv * y
+    k, m = Scalar.atom("config.innovation_filtering"), Scalar.atom("|READ(k)|")
+    want_thr = k * (Scalar.const(2) * m).sqrt() + m
+    if d is None:
+        ctx.error(f"{PY}:{qual}: the decision could not be derived")
+        return
+    nis, thr, op = d
+    ctx.oblige("NIS-FORM", f"{PY}:{qual}", f"NIS = {nis!r}", nis == want_nis, file=PY, func=qual, construct="NIS",
+               msg=f"normalised innovation is  {nis!r} ; required  {want_nis!r}")
+    ctx.oblige("THRESH-FORM", f"{PY}:{qual}", f"threshold = {thr!r}", thr == want_thr, file=PY, func=qual, construct="threshold",
+               msg=f"threshold is  {thr!r} ; required  {want_thr!r}")
+    ctx.oblige("CMP", f"{PY}:{qual}", f"comparison {op}", op == "Gt", file=PY, func=qual, construct="comparison",
+               msg=f"the reading is discarded when NIS {op} bound; required strictly greater")
+
+
 def run(ctx: core.Ctx) -> int:
     for rid, text in (("NIS-FORM", "compared quantity == y^T.Inv(S).y (matrix products)"),
                       ("THRESH-FORM", "bound == k*sqrt(2*m) + m"), ("CMP", "strict >"),
